@@ -104,6 +104,8 @@ pub struct Model {
     pub listeners: BTreeMap<Uuid, MListener>,
     /// every broker-chosen cookie ever seen in this case (freshness)
     pub seen_cookies: BTreeSet<Uuid>,
+    /// cookies of services that existed and are gone (generators aim stale requests at them)
+    pub dead_svcs: Vec<Uuid>,
     /// connections on which nothing can be observed (their broker-side task was dropped)
     pub unobservable: BTreeSet<C>,
     /// introspection database: type id -> entry
@@ -287,6 +289,7 @@ impl Model {
         let Some(obj) = self.objs.get_mut(&ou) else { return };
         let oc = obj.cookie;
         let Some(svc) = obj.services.remove(&su) else { return };
+        self.dead_svcs.push(svc.cookie);
         // pending calls to it are answered with invalid-service (unless aborted)
         let mut keep = vec![];
         for call in std::mem::take(&mut self.calls) {
@@ -445,6 +448,8 @@ impl Model {
                 let callee = self.calls[i].callee;
                 if self.alive(callee) && self.minor(callee) >= 16 {
                     eff.must(callee, AbortFunctionCall { serial: self.calls[i].callee_serial });
+                } else if self.alive(callee) {
+                    eff.note("version:abort-withheld-from-old-callee:disconnect");
                 }
                 eff.note("abort-by-caller-disconnect");
             } else if self.calls[i].caller == c {
@@ -676,6 +681,8 @@ impl Model {
                         let callee = self.calls[i].callee;
                         if self.alive(callee) && self.minor(callee) >= 16 {
                             eff.must(callee, AbortFunctionCall { serial: self.calls[i].callee_serial });
+                        } else if self.alive(callee) {
+                            eff.note("version:abort-withheld-from-old-callee:request");
                         }
                         eff.must(c, CallFunctionReply { serial: req.serial, result: CallFunctionResult::Aborted });
                         eff.note("abort:by-caller");
@@ -1313,6 +1320,9 @@ impl Model {
         if callee_v >= 19 {
             eff.must(callee, CallFunction2 { serial: cs, service_cookie: ServiceCookie(svc_cookie), function, version, value: value.clone() });
         } else {
+            if self.minor(c) >= 19 {
+                eff.note("version:call-to-pre-1.19-callee");
+            }
             eff.must(callee, CallFunction { serial: cs, service_cookie: ServiceCookie(svc_cookie), function, value: value.clone() });
         }
         if self.calls.len() >= 1 {
